@@ -1069,7 +1069,7 @@ class StructuredTypeUnmarshaller(AbstractUnmarshaller[_ST]):
         fields = self.fields_by_var
         kwargs = {f: fields[f](v) for f, v in serdes.iteritems(decoded) if f in fields}
         # A TypedDict is a plain `dict` at runtime: nothing else enforces its required keys.
-        missing = getattr(self.t, "__required_keys__", frozenset()) - kwargs.keys()
+        missing = inspection.required_keys(self.t) - kwargs.keys()
         if missing:
             raise TypeError(f"{self.t!r} is missing required keys: {sorted(missing)}")
         return self.t(**kwargs)
